@@ -167,10 +167,14 @@ def run(prog, chk):
         if not in_loop:
             chk.fail("R2.2", fn, "no-child-exec-in-loop", "no child execute call inside a loop in %s" % fn)
             continue
-        nf = switches_on_call(b, ["ExecutionResult::is_normal_flow", "ExecutionResult::is_return_or_exit"])
+        # N.B. only is_normal_flow stops the sequence for *every* pending control flow; is_return_or_exit
+        # would let break/continue run the next child (seeded change C02-case-fallthrough)
+        nf = switches_on_call(b, ["ExecutionResult::is_normal_flow"])
         nfb = [x for x, _, _ in nf]
         if not nfb:
-            chk.fail("R2.2", fn, "no-normal-flow-test", "%s never tests is_normal_flow: break/continue/return/exit raised by a child does not stop the sequence" % fn)
+            weaker = switches_on_call(b, ["ExecutionResult::is_return_or_exit"])
+            chk.fail("R2.2", fn, "no-normal-flow-test", "%s never tests is_normal_flow%s: break/continue raised by a child do not stop the sequence"
+                     % (fn, " (only is_return_or_exit, which ignores pending break/continue)" if weaker else ""))
             continue
         bad = None
         for xbb, xt in ecs:
